@@ -41,6 +41,10 @@ type Opts struct {
 	FieldsExclude []string `json:"fields_exclude,omitempty"`
 	TimeFormat    string   `json:"time_format,omitempty"`
 	Zone          *int     `json:"zone,omitempty"` // nil = TimeLocation nil (time.Local)
+	// CustomFmt: FormatFieldName/Value and FormatErrFieldName/Value are set to marker-adding functions
+	// (<name>: [value] for fields, !name= {value} for the error field): every field still appears
+	// exactly once, through the formatter pair that belongs to it
+	CustomFmt bool `json:"custom_field_formatters,omitempty"`
 }
 
 type Case struct {
@@ -126,6 +130,12 @@ func check(c *Case) (msg string, full bool, nontrivial bool) {
 	var out bytes.Buffer
 	w := zerolog.ConsoleWriter{Out: &out, NoColor: true, PartsOrder: c.Opts.PartsOrder, PartsExclude: c.Opts.PartsExclude, FieldsOrder: c.Opts.FieldsOrder,
 		FieldsExclude: c.Opts.FieldsExclude, TimeFormat: c.Opts.TimeFormat}
+	if c.Opts.CustomFmt {
+		w.FormatFieldName = func(i interface{}) string { return fmt.Sprintf("<%s>:", i) }
+		w.FormatFieldValue = func(i interface{}) string { return fmt.Sprintf("[%s]", i) }
+		w.FormatErrFieldName = func(i interface{}) string { return fmt.Sprintf("!%s=", i) }
+		w.FormatErrFieldValue = func(i interface{}) string { return fmt.Sprintf("{%s}", i) }
+	}
 	loc := time.Local
 	if c.Opts.Zone != nil {
 		loc = time.FixedZone("Z", *c.Opts.Zone)
@@ -197,16 +207,23 @@ func check(c *Case) (msg string, full bool, nontrivial bool) {
 		rest = append(ordered, others...)
 	}
 	render := func(k string) string {
+		name, val := k+"=", func(v string) string { return v }
+		if c.Opts.CustomFmt {
+			name, val = "<"+k+">:", func(v string) string { return "[" + v + "]" }
+			if k == errF {
+				name, val = "!"+k+"=", func(v string) string { return "{" + v + "}" }
+			}
+		}
 		switch v := evt[k].(type) {
 		case string:
 			if needsQuote(v) {
-				return k + "=" + strconv.Quote(v)
+				return name + val(strconv.Quote(v))
 			}
-			return k + "=" + v
+			return name + val(v)
 		case json.Number:
-			return k + "=" + v.String()
+			return name + val(v.String())
 		default:
-			return k + "=" + wrapIf(c.Set.IfaceMarshal == "wrap" && v != nil, refMarshal(v, c.Set.IfaceMarshal != ""))
+			return name + val(wrapIf(c.Set.IfaceMarshal == "wrap" && v != nil, refMarshal(v, c.Set.IfaceMarshal != "")))
 		}
 	}
 	var candidates []string
@@ -383,6 +400,7 @@ func genOpts(rt *rapid.T, set lp.Settings, keys []string) Opts {
 	if rapid.IntRange(0, 2).Draw(rt, "fe") == 0 {
 		o.FieldsExclude = subsetPerm(rt, pool, "fe")
 	}
+	o.CustomFmt = rapid.IntRange(0, 3).Draw(rt, "customfmt") == 0
 	o.TimeFormat = rapid.SampledFrom([]string{"", "", time.RFC3339, time.RFC3339Nano, "15:04:05.000", "2006-01-02"}).Draw(rt, "tf")
 	if rapid.IntRange(0, 3).Draw(rt, "zone") != 0 {
 		z := rapid.SampledFrom([]int{0, 3600, -28800, 19800}).Draw(rt, "z")
